@@ -122,6 +122,19 @@ def run(outcome, tier, seed):
                 os.mkfifo(fx.path(fifo))
                 cases.append(cli.Case(opt + ["-tj", fifo], None, fifos={fifo: data}))
                 tags.append("fifo")
+        # FIFOs whose writer delivers the content in several pieces, cut between documents and inside one
+        for k, (name, pieces) in enumerate([("s%d.json", [b'{"a":1}\n', b'{"b":2}\n', b'[3]\n']), ("s%d.json", [b'{"a":[1,2', b',3]}\n{"b"', b':2}\n']),
+                                            ("s%d.YML", [b"a: 1\n---\n", b"b: 2\n"]), ("s%d", [b"- 1\n- 2\n", b"- 3\n---\nx: y\n"]),
+                                            ("s%d.msgpack", [b"\x81\xa1a\x01", b"\x92\x01", b"\x02"]), ("s%d.dat", [b'k = 1\n[t]\n', b'j = "v"\n'])]):
+            name = name % k
+            os.mkfifo(fx.path(name))
+            cases.append(cli.Case(["-tj", name], None, fifos={name: pieces}))
+            tags.append("fifo")
+        # an option given after an operand counts for that operand too
+        for argv in (["a.json", "-f", "yaml", "-tj"], ["b.yaml", "-tj", "-f", "yaml", "a.json"], ["misleading.toml", "-f", "json", "-ty"],
+                     ["noext", "-ty", "-f", "toml"], ["-", "-tj", "-f", "yaml"], ["a.json", "-", "-f", "json", "-ty"]):
+            cases.append(cli.Case(argv, CONTENT["json"] if "-" in argv else None))
+            tags.append("sequence")
         results = cli.predict_and_run(common.XT_DEBUG, fx.dir, cases)
         hist = {}
         for r, tag in zip(results, tags):
